@@ -33,12 +33,21 @@ T = {
  "C10": ("deterministic structured mutation fuzzing of svt_av1_dec_frame on the ASan+UBSan decoder build, regression corpus replay", "3/C10",
          "One decoder session per input (init, frame(s), get_picture, teardown) on exact-size heap copies; quick = the committed corpus (134 seeds, 49 reproducers) + 20000 fresh mutants from an 18-strategy mutator seeded by VERIF_SEED (both framings, multi-call records, 16-bit pipeline); any ASan report, non-benign UBSan report, abort, or reproducible stall is a violation.",
          "Single-threaded decoder as the property states. A libFuzzer target exists for campaigns; the registered check uses the deterministic Python mutator."),
+ "C11": ("full encodes on the ASan+UBSan build over a fixed list of extremes (thorough: plus random accepted configurations); reports keyed by site", "3/C11",
+         "Every case runs init..EOS..teardown on the clang ASan+UBSan build (recover mode, one process per case): any ASan report, any UBSan report outside the audited benign list, any error packet, crash or reproducible hang is a violation; reports are keyed by (tool, kind, innermost library function) and matched against the known-findings list, which was filled from campaigns of 120+250(+250) random cases (the encoder has a long tail of latent reports: 26, then 14 more reporting functions).",
+         "The quick tier runs the fixed extremes only (configurations constant, VERIF_SEED varies content) because random draws mostly rediscover the tail; the thorough tier explores random configurations and may surface further latent reports, which are genuine. A clean sanitizer run is not memory safety."),
  "C12": ("documented-domain predicate (rule table with citations) vs svt_av1_enc_set_parameter on fresh handles", "3/C12",
          "Single-field perturbations of the library defaults over boundaries, one past, 0, -1, type min/max and random values for every field whose range the API header and the user guide state consistently (70 fields), documented cross constraints, and documentation-free metamorphic checks (accepted set is an interval; unrelated fields never flip acceptance). ~1300 set_parameter calls per run.",
          "Fields where header and guide contradict each other or give no range get no verdict (listed in evidence). The predicate is a transcription of the documents, each rule carries its citation."),
  "C14": ("one process per API call sequence on the ASan build with begin/end markers around every call", "3/C14",
          "Every NULL-handle / NULL-buffer probe of the 20 encoder and 11 decoder entry points in every protocol state where it is meaningful must return an error code; sequences with 1..5 rejected set_parameter calls followed by a valid one must configure, initialise and encode two pictures; random legal sequences must not contain a call that fails to return (other than the documented blocking wait).",
          "Protocol-illegal orders (e.g. send_picture before init) are outside the statement's three clauses and are not generated. A call that does not return within the watchdog twice is reported as blocking."),
+ "C15": ("teardown at every protocol point with thread census, library live-resource counters (hook H8), LeakSanitizer and heap-growth measurement; deadlocks established by observing all threads parked", "3/C15",
+         "Encoder and decoder sessions are torn down after init_handle, after a rejected / accepted set_parameter, after init, mid-stream after k sends with j packets fetched (k 0..40), and after a full drain; deinit + deinit_handle must return, the thread census must be back to its pre-session value, H8 must count zero live memory blocks / mutexes / semaphores / threads, LSan must be clean and the in-use heap must not grow over 30 repeated sessions. A hang is reported only when every thread is observed parked with no context switches (gdb names the kernel and the queue).",
+         "Teardown points are enumerated; k is stratified in the quick tier."),
+ "C16": ("single-fault injection: the k-th allocation / OS-object creation on the API thread fails (linker --wrap on the white-box archive), ASan, H8, LSan", "3/C16",
+         "Run 0 numbers every malloc/calloc/realloc/posix_memalign/pthread_create/sem_init/pthread_mutex_init performed on the calling thread inside init_handle, set_parameter and init (91772 events, numbering identical across runs) with its call site; run k fails exactly the k-th: the API call must return an error, deinit(+deinit_handle) must return, no ASan report, H8 and LSan clean. Quick: every (API, call-site function) x first/middle/last occurrence (541 runs); thorough: all call chains x 3 + every k of set_parameter + 800 random k; decoder: every k of threads=1 and the deterministic prefix of threads=2.",
+         "Not exhaustive for init_handle/init (about 50 CPU hours); the evidence states the fraction enumerated. Only faults on the API-calling thread are injected (deterministic numbering).", "fault_enumeration"),
  "C17": ("2-3 sessions in one process with staggered starts vs each session's solo output, on the ASan build", "3/C17",
          "Encoder/encoder, encoder/decoder and decoder/decoder pairings with different presets, bit depths, asm levels, resolutions and thread counts; every session's packet/recon/picture hashes must equal its solo run; crashes are keyed by the site ASan names and memory errors that do not occur in solo runs are violations.",
          "Interleavings of the instances are sampled by start offsets only."),
